@@ -128,7 +128,7 @@ func genC01(o *hx.Out, tier string) {
 		mdrw := defineDialect(o, "minimal", md)
 		for _, st := range refusedThenAccepted(r, md, mdrw, 30) {
 			for _, cs := range [][]hx.Chunk{one(st), splitRandom(r, st)} {
-				o.Add("read after a refused frame", hx.ReadAll(cs, mdrw, nil, nil), "fread", "minimal", "-", hx.ChunksText(cs))
+				o.AddLater("read after a refused frame", hx.ReadAllLater(cs, mdrw, nil, nil), "fread", "minimal", "-", hx.ChunksText(cs))
 			}
 		}
 	}
@@ -157,7 +157,7 @@ func genC01(o *hx.Out, tier string) {
 		if r.Intn(2) == 0 {
 			cs = splitRandom(r, all)
 		}
-		o.Add(fmt.Sprintf("read v2=%v signed=%v", v2, signed), hx.ReadAll(cs, nil, nil, nil),
+		o.AddLater(fmt.Sprintf("read v2=%v signed=%v", v2, signed), hx.ReadAllLater(cs, nil, nil, nil),
 			"fread", "-", "-", hx.ChunksText(cs))
 	}
 	// out-of-version and unusual header values: unknown incompatibility flags
@@ -169,7 +169,7 @@ func genC01(o *hx.Out, tier string) {
 		o.Add("write odd-incompat", impl, "fwrite", "-", before)
 		if data != nil {
 			cs := one(data)
-			o.Add("read odd-incompat", hx.ReadAll(cs, nil, nil, nil), "fread", "-", "-", hx.ChunksText(cs))
+			o.AddLater("read odd-incompat", hx.ReadAllLater(cs, nil, nil, nil), "fread", "-", "-", hx.ChunksText(cs))
 		}
 	}
 }
